@@ -1026,7 +1026,7 @@ func c01Scenarios(tier string) []Scenario {
 func init() {
 	register(&Property{ID: "C01", Level: "exploration",
 		Technique: "bounded-exhaustive enumeration of field-value products against an independent table-driven codec",
-		Rule:      "per message type and dialect: full Cartesian product of per-field boundary domains when it fits the cap (quick 1e5, thorough 3e6 cases), otherwise every single-field deviation from three base vectors plus all pairs of variable-length fields; each case packed into exact, +1 and large buffers, decoded with trailing junk, re-tagged with 4 tag values; non-trivial = representable cases actually packed and compared",
+		Rule:      "per message type and dialect: full Cartesian product of per-field boundary domains when it fits the cap (quick 1e5, thorough 3e6 cases), otherwise every single-field deviation from three base vectors plus all pairs of variable-length fields; each case packed into exact, +1 and large buffers, decoded with trailing junk, re-tagged with 4 tag values; non-trivial = representable cases actually packed and compared ; decode histories: stat records and messages decoded one after the other in one process, later ones sharing numeric ids, names, or 32-bit hashes of names (colliding pairs found by search for 7 hash families) with earlier ones",
 		Assumptions: []string{"the independent codec (harness/wire) is a correct reading of intro(5) and the 9P2000.u note"},
 		Scenarios:   c01Scenarios, QuickS: 100, ThoroughS: 900})
 }
